@@ -139,6 +139,21 @@ def shard(p):
             if rng.random() < 0.5:
                 f1, f2 = f2, f1
             cases.append(("identity", f1, f2))
+            if rng.random() < 0.5 and len(f1) + len(f2) >= 3:
+                # the same bag of (unit, power) entries split differently between the two sides, right after (or right before) the
+                # commensurable pair: one factor changes sides WITHOUT being inverted (N*m | J, then N | m*J). A verdict remembered
+                # for an unordered bag of units answers the wrong question the second time (seed C02-f)
+                g1, g2 = list(f1), list(f2)
+                src, dst = (g1, g2) if len(g1) > 1 and (len(g2) == 1 or rng.random() < 0.5) else (g2, g1)
+                if len(src) > 1:
+                    mv = src.pop(rng.randrange(len(src)))
+                    if not any(e["key"] == mv[0]["key"] for e, _ in dst):
+                        dst.append(mv)
+                        pair2 = ("resplit", g1, g2)
+                        if rng.random() < 0.5:
+                            cases.append(pair2)
+                        else:
+                            cases.insert(len(cases) - 1, pair2)
         for (a, b) in p["matrix"]:
             ea, eb = first_by_unit.get(a), first_by_unit.get(b)
             if ea and eb:
